@@ -280,7 +280,11 @@ def paxApply (pc : PaxCfg) (st : PaxState) (key value : Bytes) (len : Nat) : Opt
   | some k =>
     match applyHandler pc st.out k key value with
     | none => none
-    | some o => some ({ st with out := o, mask := setFlag st.mask (kindFlag k) }, len)
+    | some o =>
+      -- pax_header.c:350-353 (fix 56b164f): `GNU.sparse.map` (the only `PAX_TYPE_CONST_STRING` field) replaces and frees the
+      -- list the `GNU.sparse.numbytes` records are appended to, so the tail pointer is forgotten (`sparse_last = NULL`)
+      some ({ st with out := o, mask := setFlag st.mask (kindFlag k),
+                      sparseStarted := if k = .sparseMap then false else st.sparseStarted }, len)
   | none =>
     if key = ascii "GNU.sparse.offset" then
       match parseUint (cstr value) with
